@@ -31,6 +31,7 @@ func checkC02(p *core.Program, r *core.Report) {
 		"O2.7": "depth guard (depth > 31 ⇒ error) dominates every API / gadget call of Define",
 		"O2.8": "no NewHint/Commit/Defer and no API handed to code outside the repository in definition code",
 		"O2.12": "imported rule: no state / nondeterminism in construction and definition code (C12 O12.4)",
+		"O2.13": "imported rule: no unsynchronised write to state shared between requests in the proving path (C13 O13.1) — an assignment reused across requests lets one request be proved with another's inputs",
 		"O2.11": "the prover of this circuit (ProveDeletion, its shape validator, their callees) constructs no refusal under a condition on request values",
 		"O2.10": "imported verdict: the input-hash side of the circuit (C03, which imports C06's comparator rules and C04's Keccak layout)",
 		"O2.9": "completeness: every constraint-introducing API/gadget call of Define, the batch, round, Merkle and step definitions is a subterm of the definition's result or of an assert evaluated by O2.3 / accounted by O2.6, O1.6 or the input-hash binding (C03)",
@@ -274,6 +275,7 @@ func checkC02(p *core.Program, r *core.Report) {
 	// O2.12: "for every tree depth and batch size" also quantifies over what was built before in the same process: the
 	// construction code keeps no state (a compiled-circuit cache with a colliding key hands out the circuit of another depth)
 	importRule(p, r, "O2.12", "C12", "O12.4", "construction and definition code is free of state and other nondeterminism sources")
+	importRule(p, r, "O2.13", "C13", "O13.1", "the proving path keeps no unsynchronised shared state: each witness is built from its own request, whatever else is in flight")
 	// O2.11: "every input that meets the relation is accepted" as observed at the prover: the prover of this circuit, its
 	// shape validator and whatever they call refuse nothing on the strength of request *values* (a range test on the start
 	// index or on an index that overflows for the largest depth refuses valid batches the circuit would accept)
